@@ -158,6 +158,12 @@ _reg(Tool("islice", "iter", (1, 1),
 _reg(Tool("pairwise", "iter", (1, 1),
           lambda S, F, P, V: a.pairwise(S[0]),
           lambda S, F, P, V: itertools.pairwise(S[0])))
+# asynctools.any_iter over a plain (async) iterable of plain items is that iterable's iterator (it resolves awaitable
+# layers, of which there are none here); as "an async iterator working on another iterator" it owes what every tool owes
+_reg(Tool("any_iter", "iter", (1, 1),
+          lambda S, F, P, V: a.any_iter(S[0]),
+          lambda S, F, P, V: builtins.iter(S[0]),
+          profiles=(I, N, "unprintable")))
 _reg(Tool("starmap", "iter", (1, 1),
           lambda S, F, P, V: a.starmap(F["fn"], S[0]),
           lambda S, F, P, V: itertools.starmap(F["fn"], S[0]),
